@@ -1,0 +1,27 @@
+//! Verification hook (cargo feature `verif`): entry counts of every map of this index.
+//! The exhaustive destructuring makes a new field break this build until it is accounted for.
+use super::LuaReferenceIndex;
+
+impl LuaReferenceIndex {
+    pub fn verif_report(&self) -> Vec<(&'static str, usize)> {
+        let Self {
+            file_references,
+            index_reference,
+            global_references,
+            string_references,
+            type_references,
+            label_references,
+        } = self;
+        vec![
+            ("reference.file_references", file_references.len()),
+            ("reference.index_reference", index_reference.len()),
+            ("reference.index_reference.items", index_reference.values().map(|m| m.values().map(|v| v.len()).sum::<usize>()).sum()),
+            ("reference.global_references", global_references.len()),
+            ("reference.global_references.items", global_references.values().map(|m| m.values().map(|v| v.len()).sum::<usize>()).sum()),
+            ("reference.string_references", string_references.len()),
+            ("reference.type_references", type_references.len()),
+            ("reference.type_references.items", type_references.values().map(|m| m.values().map(|v| v.len()).sum::<usize>()).sum()),
+            ("reference.label_references", label_references.len()),
+        ]
+    }
+}
